@@ -1060,3 +1060,53 @@ def run_random(pid, spec, res, use_serial=True):
                         'outcome_vectors': sorted(outcomes)}, cap=5)
     finally:
         svc.close()
+
+
+def scenarios_names():
+    """racing creations / deletions of custom classes and traits (C19)"""
+    def put_rc(n, v='1.39'):
+        return lambda d: Req('PUT', '/resource_classes/%s' % n, v)
+
+    def post_rc(n):
+        return lambda d: Req('POST', '/resource_classes', '1.39',
+                             {'name': n})
+
+    def del_rc(n):
+        return lambda d: Req('DELETE', '/resource_classes/%s' % n, '1.39')
+
+    def put_trait(n):
+        return lambda d: Req('PUT', '/traits/%s' % n, '1.39')
+
+    def del_trait(n):
+        return lambda d: Req('DELETE', '/traits/%s' % n, '1.39')
+    return [
+        ('put rc X | put rc Y', {'A': put_rc('CUSTOM_X'),
+                                 'B': put_rc('CUSTOM_Y')}),
+        ('put rc X | post rc Y', {'A': put_rc('CUSTOM_X'),
+                                  'B': post_rc('CUSTOM_Y')}),
+        ('post rc X | post rc Y | put rc Z', {
+            'A': post_rc('CUSTOM_X'), 'B': post_rc('CUSTOM_Y'),
+            'C': put_rc('CUSTOM_Z')}),
+        ('put rc X | put rc X', {'A': put_rc('CUSTOM_X'),
+                                 'B': put_rc('CUSTOM_X')}),
+        ('put rc X | post rc X', {'A': put_rc('CUSTOM_X'),
+                                  'B': post_rc('CUSTOM_X')}),
+        ('delete highest rc | put rc X', {'A': del_rc('CUSTOM_UNUSED'),
+                                          'B': put_rc('CUSTOM_X')}),
+        ('delete rc | re-create same rc', {'A': del_rc('CUSTOM_UNUSED'),
+                                           'B': put_rc('CUSTOM_UNUSED')}),
+        ('rename rc 1.2 | put rc X', {
+            'A': lambda d: Req('PUT', '/resource_classes/CUSTOM_UNUSED',
+                               '1.2', {'name': 'CUSTOM_X'}),
+            'B': put_rc('CUSTOM_X', '1.7')}),
+        ('put trait X | put trait X', {'A': put_trait('CUSTOM_TX'),
+                                       'B': put_trait('CUSTOM_TX')}),
+        ('put trait X | put trait Y', {'A': put_trait('CUSTOM_TX'),
+                                       'B': put_trait('CUSTOM_TY')}),
+        ('delete trait | associate it', {
+            'A': del_trait('CUSTOM_UNUSED'),
+            'B': put_traits(E, 'cur', ['CUSTOM_UNUSED'])}),
+        ('delete rc | inventory of it', {
+            'A': del_rc('CUSTOM_UNUSED'),
+            'B': post_inv(E, 'CUSTOM_UNUSED', 3)}),
+    ]
